@@ -37,6 +37,9 @@ type world struct {
 	svcs    map[svcKey]netip.AddrPort
 	prevHop netip.AddrPort
 	hosts   []netip.Addr // addresses "this host" may have
+	// coincide: make the destination the datagram derives (host and port / identifier / quoted
+	// source port / registered service address) equal to the previous hop's underlay address
+	coincide bool
 }
 
 func newServer(isDisp bool) *dispatcher.Server {
@@ -130,6 +133,9 @@ func (w *world) scmpBody(t slayers.SCMPType, depth int) []byte {
 }
 
 func (w *world) port() int {
+	if w.coincide && w.r.Chance(85) {
+		return int(w.prevHop.Port())
+	}
 	if w.r.Chance(8) {
 		return 0
 	}
@@ -157,7 +163,21 @@ func (w *world) datagram(depth int, inner bool) ([]byte, string) {
 	r := w.r
 	s, _ := wiregen.GenSCION(r)
 	// destination host: mostly an IP address of this host or a registered service
-	switch r.Intn(10) {
+	dstSel := r.Intn(10)
+	if w.coincide && depth == 0 {
+		dstSel = 3 // an IP host, overwritten below with the previous hop's address
+		if r.Chance(25) {
+			// a service registered at exactly the previous hop's address and port
+			k := svcKey{0x1ff0000000110, []uint16{1, 2, 0x8001, 0xffff}[r.Intn(4)]}
+			w.svcs[k] = w.prevHop
+			s.DstIA = addr.IA(k.ia)
+			s.DstAddrType = slayers.T4Svc
+			s.RawDstAddr = []byte{byte(k.svc >> 8), byte(k.svc), 0, 0}
+			dstSel = -1
+		}
+	}
+	switch dstSel {
+	case -1:
 	case 0, 1:
 		var k svcKey
 		if len(w.svcs) > 0 && r.Chance(75) {
@@ -177,6 +197,12 @@ func (w *world) datagram(depth int, inner bool) ([]byte, string) {
 		h := w.randHost()
 		if r.Chance(15) {
 			h = mapped(h)
+		}
+		if w.coincide && depth == 0 {
+			h = w.prevHop.Addr()
+			if r.Chance(20) {
+				h = mapped(h)
+			}
 		}
 		if h.Is4() {
 			s.DstAddrType = slayers.T4Ip
@@ -551,6 +577,9 @@ func (w *world) expectedPort(v view) (uint16, bool) {
 	return 0, false
 }
 
+var prevHops = []netip.AddrPort{netip.MustParseAddrPort("10.9.9.9:30042"),
+	netip.MustParseAddrPort("[2001:db8:9::9]:31000"), netip.MustParseAddrPort("10.1.2.3:30041")}
+
 func main() {
 	e := vlib.Init()
 	r := vlib.NewRand(uint64(e.Seed))
@@ -558,11 +587,14 @@ func main() {
 	e.Rule = "SCION datagrams (UDP; SCMP echo/traceroute request+reply, 5 error types with quoted packets " +
 		"(UDP/SCMP, extension headers, truncated, nested), unknown types; other L4; optional HBH/E2E with options; " +
 		"all address types incl. SVC and IPv4-mapped; 4 path types) x outer destination (own, mapped, other) x " +
+		"15% of datagrams whose derived destination (host+port / identifier / quoted source port / registered " +
+		"service) is deliberately the previous hop's underlay address, with matching and mismatching outer " +
+		"destination x " +
 		"dispatcher on/off x SVC maps, plus bit flips, truncations and random bytes, through the real " +
 		"processMsgNextHop on one long-lived Server per mode; distinct = distinct op lines"
 	w.hosts = []netip.Addr{netip.MustParseAddr("10.1.2.3"), netip.MustParseAddr("192.168.7.9"),
 		netip.MustParseAddr("2001:db8::77"), netip.MustParseAddr("fd00::1:2")}
-	w.prevHop = netip.MustParseAddrPort("10.9.9.9:30042")
+	w.prevHop = prevHops[0]
 	n := e.N(6000, 120000)
 	for i := 0; i < n; i++ {
 		if i%500 == 0 { // new SVC map
@@ -583,7 +615,12 @@ func main() {
 		if i%500 == 0 || i%500 == 250 {
 			// the model driver keeps one configuration: re-announce on every mode switch
 		}
+		w.prevHop = prevHops[r.Intn(len(prevHops))]
+		w.coincide = r.Chance(15)
 		data, kind := w.datagram(0, false)
+		if w.coincide {
+			kind = "toprev:" + kind
+		}
 		tag := kind
 		switch r.Intn(12) {
 		case 0:
@@ -602,6 +639,8 @@ func main() {
 		var underlay netip.Addr
 		v := readDatagram(data)
 		switch {
+		case w.coincide && r.Chance(55):
+			underlay = w.randHost() // outer destination is this host, SCION destination the previous hop
 		case v.ok && r.Chance(75):
 			if a, ok := netip.AddrFromSlice(v.scn.RawDstAddr); ok && v.scn.DstAddrType != slayers.T4Svc {
 				underlay = a
